@@ -196,3 +196,103 @@ Proof.
   unfold products_ok in H2.
   exact (forallb_In _ _ (forallb_In _ _ H2 a Ha) b Hb).
 Qed.
+
+(* ================================================================== pint does not depend on the representation *)
+
+Lemma pfacts_app_zeros es k : pfacts (es ++ repeat O k) = pfacts es.
+Proof.
+  induction es as [|e es IH]; simpl.
+  - induction k as [|k IHk]; simpl; [reflexivity|]. rewrite IHk. reflexivity.
+  - rewrite IH. reflexivity.
+Qed.
+
+Lemma list_sum_app_zeros es k : list_sum (es ++ repeat O k) = list_sum es.
+Proof.
+  rewrite list_sum_app. assert (H : list_sum (repeat O k) = O) by (induction k; simpl; auto). lia.
+Qed.
+
+Lemma simplexQ_app_zeros d es k : simplexQ d (es ++ repeat O k) = simplexQ d es.
+Proof. unfold simplexQ. rewrite pfacts_app_zeros, list_sum_app_zeros. reflexivity. Qed.
+
+Lemma firstn_zeros a k : firstn a (repeat O k) = repeat O (Nat.min a k).
+Proof. revert k. induction a as [|a IH]; intros [|k]; simpl; auto. rewrite IH. reflexivity. Qed.
+
+Lemma exactQ_app_zeros : forall s es k, exactQ s (es ++ repeat O k) = exactQ s es.
+Proof.
+  induction s as [|d s IH]; intros es k; [reflexivity|].
+  change (simplexQ d (firstn d (es ++ repeat O k)) * exactQ s (skipn d (es ++ repeat O k))
+          = simplexQ d (firstn d es) * exactQ s (skipn d es)).
+  rewrite firstn_app, skipn_app, firstn_zeros, skipn_zeros.
+  rewrite simplexQ_app_zeros, IH. reflexivity.
+Qed.
+
+Lemma mint_exactQ s m : mint s m = exactQ s m.
+Proof. unfold mint, pad. apply exactQ_app_zeros. Qed.
+
+Lemma mono_trim_spec : forall m, exists k, m = mono_trim m ++ repeat O k.
+Proof.
+  induction m as [|e m [k IH]]; [exists O; reflexivity|]. simpl.
+  destruct e as [|e].
+  - destruct (mono_trim m) as [|x t] eqn:E.
+    + exists (S k). simpl in *. rewrite IH at 1. reflexivity.
+    + exists k. simpl. rewrite IH at 1. reflexivity.
+  - exists k. simpl. rewrite IH at 1. reflexivity.
+Qed.
+
+Lemma mint_trim s m : mint s (mono_trim m) = mint s m.
+Proof.
+  rewrite !mint_exactQ. destruct (mono_trim_spec m) as [k E]. rewrite E at 2.
+  symmetry. apply exactQ_app_zeros.
+Qed.
+
+Lemma pint_insert s c m p : pint s (insert_term c m p) == c * mint s m + pint s p.
+Proof.
+  induction p as [|[d m'] p IH]; [cbn [insert_term pint fst snd]; ring|].
+  cbn [insert_term]. destruct (mono_cmp m m') eqn:E; cbn [pint fst snd].
+  - apply mono_cmp_eq in E. subst. rewrite Qred_correct. ring.
+  - ring.
+  - rewrite IH. ring.
+Qed.
+
+Lemma pint_filter_nonzero s p : pint s (filter nonzero_term p) == pint s p.
+Proof.
+  induction p as [|t p IH]; [reflexivity|].
+  cbn [filter]. unfold nonzero_term at 1. destruct (Qeq_bool (fst t) 0) eqn:E; cbn [negb pint].
+  - apply Qeq_bool_eq in E. rewrite IH, E. ring.
+  - rewrite IH. reflexivity.
+Qed.
+
+(* normalisation (sorting, merging equal monomials, trimming exponent lists, dropping zero terms) keeps the integral *)
+Theorem pint_pnorm s p : pint s (pnorm p) == pint s p.
+Proof.
+  unfold pnorm. rewrite pint_filter_nonzero.
+  induction p as [|t p IH]; [reflexivity|].
+  cbn [fold_right pint]. rewrite pint_insert, mint_trim, IH. reflexivity.
+Qed.
+
+(* two representations of the same polynomial (peqb) have the same integral over every cell *)
+Theorem pint_peqb s p q : peqb p q = true -> pint s p == pint s q.
+Proof.
+  unfold peqb, pis_zero. intros H. destruct (pnorm (psub p q)) as [|t r] eqn:E; [|discriminate].
+  assert (H0 : pint s (psub p q) == 0) by (rewrite <- pint_pnorm, E; reflexivity).
+  rewrite pint_psub in H0. lra.
+Qed.
+
+(* ================================================================== the discrete integral is linear; load vectors *)
+
+Lemma qrule_int_app R d p q : qrule_int R d (p ++ q) == qrule_int R d p + qrule_int R d q.
+Proof. induction p as [|t p IH]; simpl; [ring|]. rewrite IH. ring. Qed.
+
+Lemma qrule_int_pscale R d c p : qrule_int R d (pscale c p) == c * qrule_int R d p.
+Proof. induction p as [|t p IH]; simpl; [ring|]. rewrite IH. ring. Qed.
+
+(* load vector entries for monomial data x^m (any polynomial data by linearity: pint_padd / pint_pscale /
+   qrule_int_app / qrule_int_pscale): a rule good for order n integrates x^m phi_i to within l1 * tol of the exact
+   reference entry, for all listed monomials and shape functions whose products lie within order n *)
+Theorem load_close s R n tol vals ms : rule_okQ s R n tol -> load_products_ok s n vals ms = true ->
+  forall m a, In m ms -> In a vals ->
+  Qabs (qrule_int R (dim s) (pmul [(1, m)] a) - pint s (pmul [(1, m)] a)) <= l1 (pmul [(1, m)] a) * tol.
+Proof.
+  intros HR H m a Hm Ha. apply (quad_error s R n tol _ HR).
+  unfold load_products_ok in H. exact (forallb_In _ _ (forallb_In _ _ H m Hm) a Ha).
+Qed.
